@@ -1,7 +1,7 @@
 """Run a concrete scenario on the natively compiled crate (vreplay) and collect its observations."""
 import json, os, subprocess, tempfile, re
 
-CACHE = os.path.join(os.path.dirname(os.path.dirname(os.path.abspath(__file__))), '.cache')
+from .build import CACHE
 
 
 def vreplay_bin(profile='debug', hooks=False):
